@@ -241,9 +241,17 @@ fn cli_slice(cfg: &Cfg, sink: &Sink) -> u64 {
             let rendered = c03::render(kit, &[open, Seg::Code(0)], false);
             let at = rendered.text.rfind("</block>").expect("auto-closed");
             let text = format!("{}{}", &rendered.text[..at], &rendered.text[at + 8..]);
-            for with_healthy in [false, true] {
+            // Placement: alone, next to a healthy file, and as a symbolic link to a file that lives
+            // in a hidden directory (the damaged file is in the tree only through the link).
+            for placement in 0..3u8 {
+                let with_healthy = placement == 1;
                 repo.clear();
-                repo.write(file, &text);
+                if placement == 2 {
+                    repo.write(".real/target.txt", &text);
+                    std::os::unix::fs::symlink(".real/target.txt", repo.dir.join(file)).expect("symlink");
+                } else {
+                    repo.write(file, &text);
+                }
                 if with_healthy {
                     repo.write(HEALTHY[0].0, HEALTHY[0].1);
                 }
@@ -252,7 +260,8 @@ fn cli_slice(cfg: &Cfg, sink: &Sink) -> u64 {
                     n += 1;
                     sink.exec();
                     let run = cli::blockwatch(&cfg.bin, &repo.dir, &args, stdin, &[], 30);
-                    let input = json!({"cli": true, "file": file, "mode": mode, "with_healthy": with_healthy});
+                    let input = json!({"cli": true, "file": file, "mode": mode, "placement": placement});
+                    let mode = if placement == 2 { format!("{mode}:symlinked") } else { mode.to_string() };
                     sink.outcome(format!("cli:{mode}:{:?}", run.code));
                     if run.panicked() || run.timed_out {
                         sink.fail(format!("C12:cli:crash:{}", kit.grammar), format!("{file} {mode}: {}", run.summary()), input);
